@@ -196,4 +196,149 @@ theorem C04_sound_tree (S : Schema) (cv : Conv) (tag : Str) (x tl : Option Str) 
   obtain ⟨c, fields, items, rfl, hcls, h1, h2, h3, h4, h5, h6⟩ := C04_sound_kw S cv ci args kw n hc
   exact ⟨ci, args, kw, c, fields, items, hf, rfl, hcls, h1, h2, h3, h4, h5, h6⟩
 
+/-! ### the declared constraints on the tree route -/
+
+/-- no child of the node carries the attribute's tag ⇒ the keyword collected for it is absent -/
+theorem not_given_of_no_child (S : Schema) (cv : Conv) (c : Cls) (hg : c.groom = none) (children : List Tree)
+    (acc : Accum) (n : Str) (hno : ∀ ch ∈ children, lower ch.tag ≠ n)
+    (hf : foldChildren c children (childInsts S cv children) Accum.init = .ok acc) : ¬ Given acc.kwargs n := by
+  rintro ⟨v, hl, _⟩
+  rcases foldChildren_origin c hg children _ Accum.init acc hf n v (lookup_mem hl) with h0 | ⟨ch, sub, idx, hmem, _, hn, _⟩
+  · simp [Accum.init] at h0
+  · obtain ⟨hch, _⟩ := mem_zip_childInsts S cv children ch sub hmem
+    exact hno ch hch hn
+
+/-- C04 (required child omitted, tree route): a document none of whose children carries the tag of a required
+    sub-aggregate, or of a required data element whose converter refuses `None`, is rejected. -/
+theorem C04_reject_required_omitted_tree (S : Schema) (cv : Conv) (tag : Str) (x tl : Option Str)
+    (children : List Tree) (ci : Nat) (c : Cls) (a : Attr)
+    (hf : S.findIdx? tag = some ci) (hc : S.cls? ci = some c) (hg : c.groom = none)
+    (ha : a ∈ c.spec) (hl : a.kind.isList = false) (hu : a.kind.isUnsupported = false) (hreq : a.required = true)
+    (hcv : Kind.subTarget a.kind = none → ∃ e, cv.convert S.enums a.kind true .none = .error e)
+    (hno : ∀ ch ∈ children, lower ch.tag ≠ a.name) :
+    ∃ e, fromEtree S cv (.node tag x tl children) = .error e := by
+  apply not_ok_error
+  intro n hn
+  -- the keyword route's verdict on whatever was collected
+  have key : ∀ args kw, ¬ Given kw a.name → ∃ e, construct S cv ci args kw = .error e := by
+    intro args kw hng
+    cases hst : Kind.subTarget a.kind with
+    | some t =>
+      have hk : a.kind = .sub t := by cases hk : a.kind <;> simp_all [Kind.subTarget]
+      exact C04_reject_required_sub S cv ci c args kw a t hc ha hk hreq hng
+    | none => exact C04_reject_required_elem S cv ci c args kw a hc ha hl hu hst hreq hng (hcv hst)
+  simp only [fromEtree, convertNode, hf, hc] at hn
+  by_cases hemp : children.isEmpty = true
+  · simp only [hemp, if_true] at hn
+    obtain ⟨e, he⟩ := key [] [] (by rintro ⟨v, h, _⟩; simp [lookup] at h)
+    rw [hn] at he; cases he
+  · simp only [hemp, Bool.false_eq_true, if_false] at hn
+    cases hfold : foldChildren c children (childInsts S cv children) Accum.init with
+    | error e => simp [hfold, bind, Except.bind] at hn
+    | ok acc =>
+      simp only [hfold, bind, Except.bind] at hn
+      obtain ⟨e, he⟩ := key acc.args acc.kwargs (not_given_of_no_child S cv c hg children acc a.name hno hfold)
+      rw [hn] at he; cases he
+
+
+/-- after a successful step on a known, supported, non-repeated child its value is the kwarg -/
+theorem updateArgs_known_lookup (c : Cls) (acc acc' : Accum) (ch : Tree) (sub : PyM Node) (idx : Nat) (v : Node)
+    (hg : c.groom = none) (hdot : '.' ∉ ch.tag) (hidx : specIndex c (lower ch.tag) = some idx)
+    (hnl : isListMember c (lower ch.tag) = false) (hun : unsupportedAt c idx = false)
+    (hv : childValue ch sub = .ok v) (h : updateArgs c acc ch sub = .ok acc') :
+    lookup (lower ch.tag) acc'.kwargs = some v := by
+  rw [updateArgs_eq c acc ch sub idx hg hdot hidx, hnl, hun] at h
+  split at h
+  · simp at h
+  · simp only [Bool.false_eq_true, if_false, hv, bind, Except.bind] at h
+    split at h
+    · simp at h
+    · rename_i hk
+      injection h with h; subst h
+      have hnone : lookup (lower ch.tag) acc.kwargs = none := by
+        cases hl : lookup (lower ch.tag) acc.kwargs with
+        | none => rfl
+        | some _ => simp [hasKey, hl] at hk
+      simp [lookup_append_single, hnone]
+
+/-- a known, supported, non-repeated child with a non-`None` value is *given* to the constructor -/
+theorem given_of_child (S : Schema) (cv : Conv) (c : Cls) (hg : c.groom = none) (hnd : (c.spec.map (·.name)).Nodup)
+    (pre post : List Tree) (ch : Tree) (acc : Accum) (a : Attr) (v : Node)
+    (ha : a ∈ c.spec) (hname : a.name = lower ch.tag) (hdot : '.' ∉ ch.tag)
+    (hl : a.kind.isList = false) (hu : a.kind.isUnsupported = false)
+    (hv : childValue ch (fromEtree S cv ch) = .ok v) (hnn : notNone v = true)
+    (hf : foldChildren c (pre ++ ch :: post) (childInsts S cv (pre ++ ch :: post)) Accum.init = .ok acc) :
+    Given acc.kwargs a.name := by
+  rw [childInsts_append] at hf
+  simp only [childInsts] at hf
+  obtain ⟨acc1, acc2, hstep, hrest⟩ := foldChildren_mid c ch _ pre post _ _ Accum.init acc
+    (childInsts_length S cv pre) hf
+  obtain ⟨pa, ra, hspec⟩ := List.append_of_mem ha
+  have hidx : specIndex c (lower ch.tag) = some pa.length := by
+    rw [← hname]; exact specIndex_at c pa ra a hspec hnd
+  have hnl : isListMember c (lower ch.tag) = false := by
+    rw [← hname]; exact not_listMember_of_nonlist c a ha hl hnd
+  have hun : unsupportedAt c pa.length = false := by rw [unsupportedAt_of c pa ra a hspec]; exact hu
+  have hk2 := updateArgs_known_lookup c acc1 acc2 ch _ pa.length v hg hdot hidx hnl hun hv hstep
+  exact ⟨v, by rw [hname]; exact foldChildren_lookup c hg post _ acc2 acc hrest _ _ hk2, hnn⟩
+
+/-- C04 (at-most-one / exactly-one groups, tree route): a document holding two children, both with a value, that
+    carry the tags of two members of one group in force is rejected. -/
+theorem C04_reject_mutex_two_tree (S : Schema) (cv : Conv) (tag : Str) (x tl : Option Str)
+    (pre mid post : List Tree) (ch1 ch2 : Tree) (ci : Nat) (c : Cls) (a1 a2 : Attr) (v1 v2 : Node) (g : List Str)
+    (hf : S.findIdx? tag = some ci) (hc : S.cls? ci = some c) (hg : c.groom = none)
+    (hnd : (c.spec.map (·.name)).Nodup) (hgrp : g ∈ c.optMutex ∨ g ∈ c.reqMutex)
+    (ha1 : a1 ∈ c.spec) (hn1 : a1.name = lower ch1.tag) (hd1 : '.' ∉ ch1.tag)
+    (hl1 : a1.kind.isList = false) (hu1 : a1.kind.isUnsupported = false)
+    (hv1 : childValue ch1 (fromEtree S cv ch1) = .ok v1) (hnn1 : notNone v1 = true)
+    (ha2 : a2 ∈ c.spec) (hn2 : a2.name = lower ch2.tag) (hd2 : '.' ∉ ch2.tag)
+    (hl2 : a2.kind.isList = false) (hu2 : a2.kind.isUnsupported = false)
+    (hv2 : childValue ch2 (fromEtree S cv ch2) = .ok v2) (hnn2 : notNone v2 = true)
+    (hm1 : a1.name ∈ g) (hm2 : a2.name ∈ g) (hne : a1.name ≠ a2.name) :
+    ∃ e, fromEtree S cv (.node tag x tl (pre ++ ch1 :: (mid ++ ch2 :: post))) = .error e := by
+  apply not_ok_error
+  intro n hn
+  simp only [fromEtree, convertNode, hf, hc] at hn
+  have hne' : (pre ++ ch1 :: (mid ++ ch2 :: post)).isEmpty = false := by cases pre <;> rfl
+  simp only [hne', Bool.false_eq_true, if_false] at hn
+  cases hfold : foldChildren c (pre ++ ch1 :: (mid ++ ch2 :: post))
+      (childInsts S cv (pre ++ ch1 :: (mid ++ ch2 :: post))) Accum.init with
+  | error e => simp [hfold, bind, Except.bind] at hn
+  | ok acc =>
+    simp only [hfold, bind, Except.bind] at hn
+    have g1 := given_of_child S cv c hg hnd pre (mid ++ ch2 :: post) ch1 acc a1 v1 ha1 hn1 hd1 hl1 hu1 hv1 hnn1 hfold
+    have hsplit : pre ++ ch1 :: (mid ++ ch2 :: post) = (pre ++ ch1 :: mid) ++ ch2 :: post := by simp
+    rw [hsplit] at hfold
+    have g2 := given_of_child S cv c hg hnd (pre ++ ch1 :: mid) post ch2 acc a2 v2 ha2 hn2 hd2 hl2 hu2 hv2 hnn2 hfold
+    rcases hgrp with ho | hr
+    · obtain ⟨e, he⟩ := C04_reject_mutex_two S cv ci c acc.args acc.kwargs g a1.name a2.name hc ho hm1 hm2 hne g1 g2
+      rw [hn] at he; cases he
+    · obtain ⟨e, he⟩ := C04_reject_reqmutex_two S cv ci c acc.args acc.kwargs g a1.name a2.name hc hr hm1 hm2 hne g1 g2
+      rw [hn] at he; cases he
+
+
+/-- C04 (exactly-one groups, tree route): a document none of whose children carries the tag of a member of an
+    exactly-one group in force is rejected. -/
+theorem C04_reject_reqmutex_none_tree (S : Schema) (cv : Conv) (tag : Str) (x tl : Option Str)
+    (children : List Tree) (ci : Nat) (c : Cls) (g : List Str)
+    (hf : S.findIdx? tag = some ci) (hc : S.cls? ci = some c) (hg : c.groom = none) (hgrp : g ∈ c.reqMutex)
+    (hno : ∀ m ∈ g, ∀ ch ∈ children, lower ch.tag ≠ m) :
+    ∃ e, fromEtree S cv (.node tag x tl children) = .error e := by
+  apply not_ok_error
+  intro n hn
+  simp only [fromEtree, convertNode, hf, hc] at hn
+  by_cases hemp : children.isEmpty = true
+  · simp only [hemp, if_true] at hn
+    obtain ⟨e, he⟩ := C04_reject_reqmutex_none S cv ci c [] [] g hc hgrp
+      (fun m _ => by rintro ⟨v, h, _⟩; simp [lookup] at h)
+    rw [hn] at he; cases he
+  · simp only [hemp, Bool.false_eq_true, if_false] at hn
+    cases hfold : foldChildren c children (childInsts S cv children) Accum.init with
+    | error e => simp [hfold, bind, Except.bind] at hn
+    | ok acc =>
+      simp only [hfold, bind, Except.bind] at hn
+      obtain ⟨e, he⟩ := C04_reject_reqmutex_none S cv ci c acc.args acc.kwargs g hc hgrp
+        (fun m hm => not_given_of_no_child S cv c hg children acc m (hno m hm) hfold)
+      rw [hn] at he; cases he
+
 end Ofx.Agg
